@@ -9,6 +9,7 @@ package c17
 
 import (
 	"fmt"
+	"github.com/tikv/client-go/v2/oracle"
 	"math/rand"
 	"os"
 	"runtime"
@@ -32,9 +33,24 @@ type config struct {
 	Start   []uint64 `json:"start"`  // per txn
 	Commit  []uint64 `json:"commit"` // per txn; > start
 	Commits []bool   `json:"commits"`
+	Wide    bool     `json:"wide,omitempty"` // keys index the 8-key pool (all in one slot of a 1-slot table)
 }
 
 var pool [][]byte // 4 keys: on a 2-slot table two of them collide, on a 1-slot table all do
+
+// widePool: 8 keys for the recycling configurations (a slot recycles free, old nodes once it lists >= 5 keys)
+var widePool = [][]byte{[]byte("A"), []byte("B"), []byte("C"), []byte("D"), []byte("E"), []byte("F"), []byte("G"), []byte("H")}
+
+func poolOf(c *config) [][]byte {
+	if c.Wide {
+		return widePool
+	}
+	return pool
+}
+
+// recycleAge is the age (start ts of an arriving request minus the node's max commit ts, physical parts) from which
+// the latch may drop a free node - and with it the record of its max commit ts - to bound memory (2 minutes).
+const recycleAge = 2 * 60 * 1000
 
 func init() {
 	l := latch.NewLatches(2)
@@ -65,12 +81,17 @@ type mtxn struct {
 	state int
 	pos   int // number of latches passed (held), in key order
 	woken bool
+	ambig int // key (pool index) whose possibly-forgotten max commit ts made the last acquire report stale; -1 = none
 }
 
 type mkey struct {
 	holder    int
 	waiters   []int
 	maxCommit uint64
+	// mayForget: while the key was free, a request arrived whose start ts is >= 2 minutes above maxCommit: the
+	// implementation may have recycled the node (it does when the slot lists >= 5 keys), losing maxCommit. Whether it
+	// did is its choice; the model follows what the implementation reports for the next requester (see execute).
+	mayForget bool
 }
 
 type model struct {
@@ -79,12 +100,17 @@ type model struct {
 	keys  []mkey
 	wake  []int // scheduler's pending wake-up list
 	trace []string
+	// realStale reports whether the implementation marked txn w stale (consulted only to resolve a mayForget choice)
+	realStale func(w int) bool
 }
 
 func newModel(c *config) *model {
-	m := &model{cfg: c, txns: make([]mtxn, len(c.Keys)), keys: make([]mkey, len(pool))}
+	m := &model{cfg: c, txns: make([]mtxn, len(c.Keys)), keys: make([]mkey, len(poolOf(c)))}
 	for i := range m.keys {
 		m.keys[i].holder = -1
+	}
+	for i := range m.txns {
+		m.txns[i].ambig = -1
 	}
 	return m
 }
@@ -98,9 +124,13 @@ func (m *model) acquire(i int) int {
 		return 2
 	}
 	ks := m.cfg.Keys[i]
+	t.ambig = -1
 	for t.pos < len(ks) {
 		k := &m.keys[ks[t.pos]]
 		if k.maxCommit > m.cfg.Start[i] {
+			if k.mayForget {
+				t.ambig = ks[t.pos]
+			}
 			t.state = stStale
 			return 2
 		}
@@ -115,6 +145,24 @@ func (m *model) acquire(i int) int {
 	}
 	t.state = stAcquired
 	return 0
+}
+
+// arrived notes that a request with start ts `start` reached the table: every free key of its slots whose max commit
+// ts is >= 2 minutes older may have been recycled (all keys, conservatively: a 1-slot table, or the tolerance is
+// simply never used).
+func (m *model) arrived(start uint64) {
+	for k := range m.keys {
+		x := &m.keys[k]
+		if x.holder == -1 && x.maxCommit != 0 && oracle.ExtractPhysical(start)-oracle.ExtractPhysical(x.maxCommit) >= recycleAge {
+			x.mayForget = true
+		}
+	}
+}
+
+// forget applies the implementation's choice to have recycled key k and lets txn i continue from where it stood.
+func (m *model) forget(i, k int) {
+	m.keys[k].maxCommit, m.keys[k].mayForget = 0, false
+	m.txns[i].state, m.txns[i].ambig = stNew, -1
 }
 
 func (m *model) release(i int) {
@@ -132,12 +180,17 @@ func (m *model) release(i int) {
 		}
 		if commit > k.maxCommit {
 			k.maxCommit = commit
+			k.mayForget = false
 		}
 		k.holder = -1
 		if len(k.waiters) > 0 {
 			w := k.waiters[0]
 			k.waiters = k.waiters[1:]
 			m.wake = append(m.wake, w)
+			if k.maxCommit > m.cfg.Start[w] && k.mayForget && m.realStale != nil && !m.realStale(w) {
+				// the implementation had recycled the node (allowed, see mkey.mayForget): the old commit ts is gone
+				k.maxCommit, k.mayForget = 0, false
+			}
 			if k.maxCommit > m.cfg.Start[w] {
 				// the woken requester is stale; it parks on the latch until it is unlocked itself
 				k.holder = w
@@ -165,6 +218,7 @@ type violation struct {
 // execute runs the events on fresh real latches + model; returns the enabled next events.
 func execute(c *config, evs []event) (enabled []event, v *violation) {
 	real := latch.NewLatches(c.Slots)
+	pool := poolOf(c)
 	m := newModel(c)
 	locks := make([]*latch.Lock, len(c.Keys))
 	var realWake []*latch.Lock
@@ -193,7 +247,13 @@ func execute(c *config, evs []event) (enabled []event, v *violation) {
 				keys[j] = pool[ki]
 			}
 			locks[i] = real.VerifGenLock(c.Start[i], keys)
+			m.arrived(c.Start[i])
 			got, want := real.VerifAcquire(locks[i]), m.acquire(i)
+			for want == 2 && m.txns[i].ambig >= 0 && (got != want || locks[i].VerifAcquiredCount() > m.txns[i].pos) {
+				// the implementation had recycled the node whose old commit ts would have made this request stale
+				m.forget(i, m.txns[i].ambig)
+				want = m.acquire(i)
+			}
 			if got != want {
 				return nil, fail("arrive(%d): acquire returned %d, specification says %d (0 success,1 locked,2 stale)", i, got, want)
 			}
@@ -202,6 +262,7 @@ func execute(c *config, evs []event) (enabled []event, v *violation) {
 				locks[i].SetCommitTS(c.Commit[i])
 			}
 			realWake = real.VerifRelease(locks[i])
+			m.realStale = func(w int) bool { return locks[w] != nil && locks[w].IsStale() }
 			m.release(i)
 			if len(realWake) != len(m.wake) {
 				return nil, fail("release(%d): wake-up list has %d entries, specification %d", i, len(realWake), len(m.wake))
@@ -216,7 +277,12 @@ func execute(c *config, evs []event) (enabled []event, v *violation) {
 			m.wake = m.wake[1:]
 			l := realWake[0]
 			realWake = realWake[1:]
+			m.arrived(c.Start[w])
 			got, want := real.VerifAcquire(l), m.acquire(w)
+			for want == 2 && m.txns[w].ambig >= 0 && (got != want || l.VerifAcquiredCount() > m.txns[w].pos) {
+				m.forget(w, m.txns[w].ambig)
+				want = m.acquire(w)
+			}
 			if got != want {
 				return nil, fail("wake(%d): acquire returned %d, specification says %d", w, got, want)
 			}
@@ -494,6 +560,77 @@ func TestSampled(t *testing.T) {
 		rec.Class("interleavings", leaves)
 		rec.Case(fmt.Sprintf("%v", *c), shares(c), []string{fmt.Sprintf("txns=%d", n), fmt.Sprintf("capped=%v", leaves >= 20000)},
 			map[string]any{"config": c, "interleavings": leaves})
+	})
+}
+
+// TestRecycling: configurations in which the latch's memory bound is reached - a 1-slot table, 6..9 transactions over an
+// 8-key pool, TSO-scale timestamps in three epochs more than two minutes apart - walked along one rapid-drawn
+// interleaving each. The slot then recycles free nodes that are old enough, which must change nothing observable
+// except that a max commit ts older than two minutes may be forgotten.
+func TestRecycling(t *testing.T) {
+	rec := ev.For(t, "C17", "recycling configurations: 1-slot table, 6-9 txns x 1-2 keys from an 8-key pool (so the slot lists >= 5 keys and recycles free nodes whose max commit ts is >= 2 min below the arriving start ts), TSO-scale timestamps in three epochs 130 s apart, some holders not committing; one rapid-drawn interleaving of {arrive, release, wake} per configuration, compared step by step with the FIFO-per-key specification model, which may forget a max commit ts only where the implementation is allowed to; non-trivial = an arrival found >= 5 keys listed and a later request touched a key listed before; distinct = configuration + interleaving")
+	rapid.Check(t, func(t *rapid.T) {
+		n := rapid.IntRange(6, 9).Draw(t, "txns")
+		c := &config{Slots: 1, Wide: true}
+		hot := rapid.IntRange(0, 7).Draw(t, "hot")
+		base := uint64(400000) << 18 // physical part 400 s: a never-committed node is "old" for every arrival
+		used := map[uint64]bool{}
+		ts := func(name string, epoch int) uint64 {
+			for {
+				v := base + uint64(epoch)*(130000<<18) + uint64(rapid.IntRange(1, 40).Draw(t, name))
+				if !used[v] {
+					used[v] = true
+					return v
+				}
+			}
+		}
+		for i := 0; i < n; i++ {
+			ks := []int{rapid.IntRange(0, 7).Draw(t, "k")}
+			if rapid.Bool().Draw(t, "two") {
+				if k2 := rapid.IntRange(0, 7).Draw(t, "k2"); k2 != ks[0] {
+					ks = append(ks, k2)
+				}
+			}
+			if rapid.IntRange(0, 2).Draw(t, "withhot") == 0 && !inList(ks, hot) && len(ks) < 2 {
+				ks = append(ks, hot)
+			}
+			sort.Ints(ks)
+			c.Keys = append(c.Keys, ks)
+			c.Commits = append(c.Commits, rapid.IntRange(0, 3).Draw(t, "commits") != 0)
+			epoch := rapid.IntRange(0, 2).Draw(t, "epoch")
+			a := ts("start", epoch)
+			b := ts("commit", epoch+rapid.IntRange(0, 1).Draw(t, "commitepoch"))
+			if a > b {
+				a, b = b, a
+			}
+			c.Start, c.Commit = append(c.Start, a), append(c.Commit, b)
+		}
+		var evs []event
+		listed, full, reuse := map[int]bool{}, false, false
+		for step := 0; step < 200; step++ {
+			enabled, v := execute(c, evs)
+			if v != nil {
+				t.Fatalf("%s", v.msg)
+			}
+			if len(enabled) == 0 {
+				break
+			}
+			e := enabled[rapid.IntRange(0, len(enabled)-1).Draw(t, "next")]
+			if e.Kind == "arrive" {
+				if len(listed) >= 5 {
+					full = true
+				}
+				for _, k := range c.Keys[e.Txn] {
+					if full && listed[k] {
+						reuse = true
+					}
+					listed[k] = true
+				}
+			}
+			evs = append(evs, e)
+		}
+		rec.Case(fmt.Sprintf("%v %v", *c, evs), full && reuse, []string{fmt.Sprintf("txns=%d", n), fmt.Sprintf("slot-full=%v", full), fmt.Sprintf("reused-after-full=%v", reuse)},
+			map[string]any{"config": c, "events": fmt.Sprint(evs)})
 	})
 }
 
